@@ -261,6 +261,7 @@ type driver struct {
 	unserved []string
 	distinct map[string]bool
 	samples  []any
+	pool     []string
 	perSampleMax int
 	coverage map[string]int
 	licCache map[string][]byte
@@ -639,8 +640,8 @@ func (d *driver) runScenario(a *assetInfo, md drmMode, dl delivery, base int64, 
 				loopIdx = rq.T
 			}
 			d.distinct[strings.Join([]string{a.Path, md.Name, rep.ID, dl.Name, dl.Opts, loopIdx}, "|")] = true
-			if len(d.samples) < 8 && d.rng.Intn(150) == 0 {
-				d.samples = append(d.samples, encURL)
+			if d.nSeg%17 == 0 {
+				d.pool = append(d.pool, encURL)
 			}
 		}
 	}
@@ -815,7 +816,8 @@ func Main(args []string) error {
 		1_700_000_000_000 + int64(d.rng.Intn(90_000_000))*1000}
 	if thorough {
 		bases = append(bases, 86_400_000*365+int64(d.rng.Intn(1000))*1000, 1_900_000_000_000+int64(d.rng.Intn(1_000_000))*1000,
-			4_000_000_000_000+int64(d.rng.Intn(1_000_000))*1000)
+			4_000_000_000_000+int64(d.rng.Intn(1_000_000))*1000, 61_000+int64(d.rng.Intn(7))*1000,
+			1_000_000_000_000+int64(d.rng.Intn(1_000_000_000)), 2_147_483_648_000+int64(d.rng.Intn(100_000)))
 	}
 
 	var encryptable, skipped []string
@@ -877,12 +879,7 @@ func Main(args []string) error {
 		}
 		for mi, md := range modes {
 			for bi, base := range bases {
-				if !thorough {
-					// quick: every mode x asset once near the epoch; the other instants rotate over modes
-					if bi > 0 && (mi+bi+ai+int(*seed))%3 != 0 {
-						continue
-					}
-				}
+				_, _ = mi, bi
 				count := 2*loopSegs + 1 // one loop, the wrap, and the next loop
 				if count > 12 {
 					count = 12
@@ -898,12 +895,18 @@ func Main(args []string) error {
 		// SegmentTimeline addressing of number-based assets ($Time$ and $Number$ with timeline)
 		if !a.Timeline {
 			for mi, md := range modes {
-				for oi, o := range []string{"segtimeline_1/", "segtimelinenr_1/"} {
+				for oi, o := range []string{"segtimeline_1/", "segtimelinenr_1/", "periods_30/", "periods_30/continuous_1/segtimeline_1/"} {
 					if !thorough && (mi+oi+ai+int(*seed))%4 != 0 {
 						continue
 					}
-					if err := d.runScenario(a, md, delivery{Name: "whole", Opts: o, Live: true}, bases[(mi+oi)%len(bases)], 6); err != nil {
-						return err
+					nb := 1
+					if thorough {
+						nb = 3
+					}
+					for b := 0; b < nb; b++ {
+						if err := d.runScenario(a, md, delivery{Name: "whole", Opts: o, Live: true}, bases[(mi+oi+b*2)%len(bases)], 6); err != nil {
+							return err
+						}
 					}
 				}
 			}
@@ -934,8 +937,14 @@ func Main(args []string) error {
 					if cnt > 5 {
 						cnt = 5
 					}
-					if err := d.runScenario(a, md, delivery{Name: "chunked", Opts: o}, bases[(mi+oi)%len(bases)], cnt); err != nil {
-						return err
+					nb := 1
+					if thorough {
+						nb = 3
+					}
+					for b := 0; b < nb; b++ {
+						if err := d.runScenario(a, md, delivery{Name: "chunked", Opts: o}, bases[(mi+oi+b*2)%len(bases)], cnt); err != nil {
+							return err
+						}
 					}
 				}
 			}
@@ -963,6 +972,9 @@ func Main(args []string) error {
 
 	if err := w.Close(); err != nil {
 		return err
+	}
+	for i := 0; i < 8 && len(d.pool) > 0; i++ {
+		d.samples = append(d.samples, d.pool[(i*len(d.pool))/8])
 	}
 	sort.Strings(d.unserved)
 	if len(d.unserved) > 20 {
